@@ -17,6 +17,8 @@ CONFIGS = {
     'full': (True, ['serde', 'arbitrary', 'new_unchecked', 'regex'], True),
     'bare': (True, [], True),
     'nostd': (False, ['serde', 'arbitrary'], False),
+    # exactly one optional feature on: a gate that tests the wrong feature shows here
+    'sch': (True, ['schemars08'], 'schemars'),
 }
 
 
@@ -39,7 +41,9 @@ def build_libs(cfg):
             r = build.repo()
             fs = ', '.join(f'"{f}"' for f in feats)
             deps = f'nutype = {{ path = "{r}/nutype", default-features = {"true" if df else "false"}, features = [{fs}] }}\n'
-            if extra:
+            if extra == 'schemars':
+                deps += 'schemars = "0.8"\n'
+            elif extra:
                 deps += 'serde = "1"\nserde_json = "1"\narbitrary = "1"\nregex = "1"\n'
             else:
                 deps += 'serde = { version = "1", default-features = false, features = ["alloc"] }\narbitrary = "1"\n'
@@ -63,7 +67,7 @@ def build_libs(cfg):
             with open(os.path.join(ld, 'ok'), 'w') as f:
                 f.write(str(round(time.time() - t0, 1)))
     ext = {}
-    for name in ('nutype', 'serde', 'serde_json', 'arbitrary', 'regex'):
+    for name in ('nutype', 'serde', 'serde_json', 'arbitrary', 'regex', 'schemars'):
         c = sorted(glob.glob(os.path.join(ld, f'lib{name}-*.rlib')))
         if c:
             ext[name] = c[0]
